@@ -48,6 +48,11 @@ package atree
 //@   ghostdef err != nil ==> (forall w ref :: w != sinkOf(recv) ==> wc[w] == old(wc)[w])
 //@   modifies ghost.wc, ghost.wb, alloc
 
+//@ # an array head is bytes of the stream, not a value: the value-position counter does not move
+//@ extern cbor.StreamEncoder.EncodeArrayHead(n) (err)
+//@   ghostdef vpos == old(vpos)
+//@   modifies ghost.wc, ghost.wb, ghost.vpos, alloc
+
 //@ extern cbor.StreamEncoder.Flush() (err)
 //@   modifies alloc
 
@@ -82,12 +87,15 @@ package atree
 //@   modifies alloc
 
 //@ # a storable writes exactly the number of bytes it reports (assumed for caller-supplied storables; this is what "size" means)
+//@ # vpos: number of Storable.Encode calls so far (ghost event counter; used to say WHICH value is written at which position)
+//@ ghost vpos : int
 //@ iface Storable.Encode(enc) (err)
 //@   conform all
 //@   serves C06
+//@   ghostdef vpos == old(vpos) + 1
 //@   ghostdef err == nil ==> wc == upd(old(wc), enc.Writer, old(wc)[enc.Writer] + bs(recv))
 //@   ghostdef err != nil ==> (forall w ref :: w != enc.Writer ==> wc[w] == old(wc)[w])
-//@   modifies ghost.wc, ghost.wb, Encoder._inlinedExtraData, InlinedExtraData.*, alloc
+//@   modifies ghost.wc, ghost.wb, ghost.vpos, Encoder._inlinedExtraData, InlinedExtraData.*, alloc
 
 //@ # extra-data sections: whatever they write is counted as extra-data bytes
 //@ func (a *ArrayExtraData) Encode(enc, encodeTypeInfo) (err)  serves C06
@@ -304,3 +312,56 @@ package atree
 //@   ensures err == nil ==> (forall t string :: has(ied.arrayExtraDataSet, t) ==> 0 <= ied.arrayExtraDataSet[t] && ied.arrayExtraDataSet[t] < len(ied.extraData) &&
 //@        ied.extraData[ied.arrayExtraDataSet[t]].encodedTypeInfo == t)
 //@   modifies ied.extraData, ied.arrayExtraDataSet, alloc
+
+//@ # same-typed inlined composite maps share one entry (type, and the keys and digests hoisted out of the maps): the index handed back
+//@ # refers to an entry of the same encoded type, the key order handed back is the entry's, and a new entry records exactly the
+//@ # digests and keys passed in; earlier entries are untouched
+//@ pred cmSetOK(ied *InlinedExtraData) = forall t string :: has(ied.compactMapTypeSet, t) ==> 0 <= ied.compactMapTypeSet[t].index && ied.compactMapTypeSet[t].index < len(ied.extraData) &&
+//@      is(ied.extraData[ied.compactMapTypeSet[t].index].extraData, *compactMapExtraData) &&
+//@      as(ied.extraData[ied.compactMapTypeSet[t].index].extraData, *compactMapExtraData).keys == ied.compactMapTypeSet[t].keys
+//@ func makeCompactMapTypeID(encodedTypeInfo, names) (id)  serves C07
+//@   trusted "string construction from the encoded type and the sorted key identifiers; reads only its arguments (frame only: nothing is claimed about the string)"
+//@   pure
+
+//@ func (ied *InlinedExtraData) addCompactMapExtraData(data, digests, keys) (index, rkeys, err)  serves C06 C07
+//@   requires ied != nil && data != nil && cmSetOK(ied)
+//@   ensures[C07] err == nil ==> 0 <= index && index < len(ied.extraData) && is(ied.extraData[index].extraData, *compactMapExtraData) &&
+//@        as(ied.extraData[index].extraData, *compactMapExtraData).keys == rkeys
+//@   ensures[C07] err == nil && index == len(old(ied.extraData)) ==> len(ied.extraData) == len(old(ied.extraData)) + 1 && rkeys == keys &&
+//@        as(ied.extraData[index].extraData, *compactMapExtraData).hkeys == digests && as(ied.extraData[index].extraData, *compactMapExtraData).mapExtraData == data &&
+//@        ied.extraData[index].encodedTypeInfo == tiEnc(data.TypeInfo)
+//@   ensures[C07] err == nil ==> (forall k :: 0 <= k && k < len(old(ied.extraData)) ==> ied.extraData[k] == old(ied.extraData)[k]) && len(ied.extraData) >= len(old(ied.extraData))
+//@   ensures[C07] err == nil ==> cmSetOK(ied)
+//@   ensures err != nil ==> ied.extraData == old(ied.extraData)
+//@   modifies ied.extraData, ied.compactMapTypeSet, alloc
+
+//@ # ---- the register bytes of a slab (C06, C07; second view, the storage layer uses the abstraction enc(slab)): the slab itself is
+//@ # encoded into a new buffer through a new encoder, the stream encoder is flushed, and the buffer's bytes are the result
+//@ func EncodeSlab@bytes(slab, encMode) (data, err)  serves C06 C07 C18
+//@   requires slab != nil && encMode != nil
+//@   before[C06 C07] Storable.Encode: arg_recv == slab && arg_enc == enc && encWF(enc) && enc._inlinedExtraData == nil
+//@   ensures[C18] err != nil ==> data == nil
+//@   modifies heap, ghost.wc, ghost.wb, ghost.xbytes, alloc
+
+//@ # the CBOR head sizes of unsigned integers (used by value types to report their encoded size, C06)
+//@ func GetUintCBORSize(n) (r)  serves C06
+//@   ensures r == ite(n <= 23, 1, ite(n <= 255, 2, ite(n <= 65535, 3, ite(n <= 4294967295, 5, 9))))
+//@   pure
+
+//@ # ---- values of an inlined compact map (C07): same-typed inlined composite maps share one key list; each map writes only its values,
+//@ # and the reader pairs value k with shared key k. So the k-th value written must be the value of a key equal to the k-th shared key.
+//@ ghost ceq : fn(a ref, b ref) bool
+//@ iface ComparableStorable.Equal(other) (r)
+//@   ensures r == ceq(recv, other)
+//@   pure
+//@ func encodeCompactMapValues(enc, cachedKeys, keys, values) (err)  serves C07 C18
+//@   requires encWF(enc) && len(keys) == len(values) && (forall k :: 0 <= k && k < len(cachedKeys) ==> cachedKeys[k] != nil) &&
+//@        (forall k :: 0 <= k && k < len(keys) ==> keys[k] != nil && values[k] != nil)
+//@   before[C07] Storable.Encode: arg_enc == enc && 0 <= vpos - old(vpos) && vpos - old(vpos) < len(cachedKeys) &&
+//@        (exists j :: 0 <= j && j < len(keys) && arg_recv == values[j] && ceq(cachedKeys[vpos - old(vpos)], keys[j]))
+//@   ensures[C07] err == nil ==> vpos - old(vpos) == len(cachedKeys)
+//@   ensures[C18] err != nil ==> categorised(err)
+//@   modifies heap, ghost.wc, ghost.wb, ghost.vpos, ghost.xbytes, alloc
+//@   loop 1: invariant 0 <= i && i <= len(keyIndexes) && len(keyIndexes) == len(keys) && (forall k :: 0 <= k && k < i ==> keyIndexes[k] == k) && vpos == old(vpos)
+//@   loop 2: invariant 0 <= i && i <= len(cachedKeys) && len(keyIndexes) == len(keys) && (forall k :: 0 <= k && k < len(keyIndexes) ==> 0 <= keyIndexes[k] && keyIndexes[k] < len(keys)) && vpos - old(vpos) == i
+//@   loop 3: invariant i <= j && len(keyIndexes) == len(keys) && (forall k :: 0 <= k && k < len(keyIndexes) ==> 0 <= keyIndexes[k] && keyIndexes[k] < len(keys)) && vpos - old(vpos) == i && !found
